@@ -29,7 +29,7 @@ func init() {
 	register("C35", PropertyMeta{
 		Technique: "guarded-by lock-set analysis (must-held mutex sets, interprocedural by call-site agreement) + initialise-once rule for the location dictionary",
 		Explanation: "Decides on datarecording/datarecorder.go: the batch state — tables, a table's buffered entries, the entry counter and the location dictionary — is accessed only while the writer's mutex is held, at every site outside construction (helpers are analysed with the locks all their callers hold); " +
-			"the location dictionary is created only when it is still nil (re-creating it while rows already persist would hand out duplicate IDs). (memo-initialised) a last-result memo keyed on a receiver field is not consulted before that field was ever assigned (its zero value is a legal key).",
+			"the location dictionary is created only when it is still nil (re-creating it while rows already persist would hand out duplicate IDs). (memo-initialised) a last-result memo keyed on a receiver field is not consulted before that field was ever assigned (its zero value is a legal key). (allowed-kinds) every field kind isAllowedType accepts is one database/sql can bind.",
 		NotDecided:  "SQL-level contents; exactly-once persistence of each entry (follows from the lock discipline plus the batch reset, which is not derived).",
 		Assumptions: []string{"sync.Mutex semantics"},
 	}, runC35)
@@ -661,6 +661,7 @@ func runC34(c *Ctx) {
 }
 
 func runC35(c *Ctx) {
+	allowedKindsRule(c, "allowed-kinds")
 	p := c.P
 	pkgFns := p.SrcFuncs(func(pp string) bool { return strings.HasSuffix(pp, "/datarecording") })
 	var fns []*ssa.Function
